@@ -224,8 +224,10 @@ class History(object):
         elif kind == "signal":
             m.serial, m.data = c.build(4, path=ACT_PATH, iface=ACT_IFACE, member=b"Sig", dest=name, sig=b"s", body=[m.token])
         else:
+            # "start-noreply": StartServiceByName flagged NO_REPLY_EXPECTED joins the activation like any other waiter,
+            # gets no success reply, and must not disturb the waiters queued behind it
             m.serial, m.data = c.build(1, path=client.BUS_PATH, iface=client.BUS, member=b"StartServiceByName",
-                                       dest=client.BUS, sig=b"su", body=[name, 0])
+                                       dest=client.BUS, sig=b"su", body=[name, 0], flags=1 if kind == "start-noreply" else 0)
         m.epoch = self.epoch
         m.seq = len([x for x in self.msgs if x.sender == si])
         m.judged = False
@@ -239,7 +241,7 @@ class History(object):
             if rng.random() < 0.15 and out:
                 continue
             for _ in range(rng.randint(1, 3)):
-                kind = rng.choice(["call"] * 4 + ["signal"] * 3 + ["start"] * 3)
+                kind = rng.choice(["call"] * 4 + ["signal"] * 3 + ["start"] * 3 + ["start-noreply"])
                 out.append(self.make_msg(si, kind, rng.choice(targets)))
         return out
 
@@ -561,6 +563,17 @@ class History(object):
                 outcome = "delivered" if rets else ("error" if errs else "none")
                 if errs:
                     self.part.count("error:" + (errs[0].msg.known().get(4) or b"?").decode())
+            elif m.kind == "start-noreply":
+                self.part.count("start-noreply-waiters")
+                if nd:
+                    self.violation("start-request-forwarded", "StartServiceByName itself was delivered to the service")
+                # the specification only says the reply "should be omitted"; the bus answers such a waiter when the start
+                # succeeds (bus_activation_service_created does not look at the flag): 0 or 1 answers are both accepted
+                if len(replies) > 1:
+                    self.violation("answered-%d-times:start-noreply:%s" % (len(replies), bc), "received %d replies" % len(replies))
+                if never_owns(beh) and rets:
+                    self.violation("success-without-owner:start-noreply:%s" % bc, "non-error reply although the service never takes the name")
+                outcome = "error" if errs else ("answered" if rets else "silent")
             elif m.kind == "start":
                 if nd:
                     self.violation("start-request-forwarded", "StartServiceByName itself was delivered to the service")
